@@ -297,6 +297,21 @@ theorem openModel_no_fault (fsel : FmtSel) (asel : AbcSel) (fname : Option Bytes
     obtain ⟨fmt, nw⟩ := x
     exact openAbc_no_fault fmt nw asel lines
 
+/-- no caller-supplied format data (or `namewidth = 0`, unset) is the plain open path -/
+theorem openModelW_zero (fsel : FmtSel) (asel : AbcSel) (fname : Option Bytes) (lines : List Bytes) :
+    openModelW 0 fsel asel fname lines = openModel fsel asel fname lines := by
+  cases fsel <;> rfl
+
+/-- under autodetection the caller's format data is forgotten -/
+theorem openModelW_auto (nw0 : Nat) (asel : AbcSel) (fname : Option Bytes) (lines : List Bytes) :
+    openModelW nw0 .auto asel fname lines = openModel .auto asel fname lines := rfl
+
+theorem openModelW_no_fault (nw0 : Nat) (fsel : FmtSel) (asel : AbcSel) (fname : Option Bytes) (lines : List Bytes) :
+    openModelW nw0 fsel asel fname lines ≠ .fault := by
+  cases fsel with
+  | decl f => exact openAbc_no_fault f nw0 asel lines
+  | auto => exact openModel_no_fault .auto asel fname lines
+
 /-! ## what the decisions are made of -/
 
 /-- a declared format is never second-guessed, and text mode never fails to open -/
